@@ -27,6 +27,6 @@ PLAN = dict(
         dict(name="fuzz-sh", fuzz="FuzzStructuredHeader", fuzztime=60, timeout=(0, 300)),
     ],
     require=[("parsers", "family"), ("parsers", "accepted"), ("parsers", "rejected"), ("parsers", "target:bundle.Read"), ("parsers", "target:signedexchange.Verify"),
-             ("parsers", "target:certurl.ReadCertChain"), ("parsers", "target:signature.NewVerifier"), ("parsers", "target:mice.Decode03"),
+             ("parsers", "target:certurl.ReadCertChain"), ("parsers", "target:signature.NewVerifier"), ("parsers", "target:signature.verify-struct"), ("parsers", "target:mice.Decode03"),
              ("parsers", "target:cbor.Decoder"), ("parsers", "target:integrityblock.ObtainIntegrityBlock"), ("scaling", "origin:scale:tiny-entries")],
 )
